@@ -62,6 +62,13 @@ func fixedScopeProgs() [][]pnode {
 		// a loop over a user variable called forloop, and a loop variable called forloop
 		cat(one(pAssign{"forloop", litStr("user")}), one(loop("i", eRange{litInt(1), litInt(2)}, one(pPrint{pf("forloop", "index")}))), pr("forloop")),
 		cat(one(pAssign{"forloop", litStr("user")}), one(loop("forloop", eRange{litInt(1), litInt(2)}, one(pPrint{pf("forloop", "index")}))), pr("forloop")),
+		// a variable assigned the forloop record holds the values of that moment in later iterations, in a nested loop and after the loop
+		cat(one(loop("i", eRange{litInt(1), litInt(3)}, cat(one(pIf{Br: []pBranch{{condTruth(pf("forloop", "first")), one(pAssign{"a", pv("forloop")})}}}),
+			one(pPrint{pf("a", "index")}), one(pPrint{pf("a", "rindex")}), one(pPrint{pf("a", "first")}), one(pPrint{pf("a", "last")}), one(pText{";"})))),
+			one(pPrint{pf("a", "index")}), one(pPrint{pf("a", "length")})),
+		one(loop("i", eRange{litInt(1), litInt(2)}, cat(one(pAssign{"a", pv("forloop")}), one(loop("k", eRange{litInt(1), litInt(3)},
+			cat(one(pPrint{pf("a", "index")}), one(pPrint{pf("forloop", "index")}), one(pAssign{"b", pv("forloop")})))),
+			one(pPrint{pf("b", "index")}), one(pPrint{pf("a", "index")}), one(pText{";"})))),
 		// tablerow restores too
 		cat(one(pAssign{"i", litStr("outer")}), one(pFor{Tablerow: true, Var: "i", Coll: eRange{litInt(1), litInt(2)}, Body: pr("i")}), pr("i")),
 		// an empty loop with else leaves everything alone
